@@ -22,9 +22,11 @@ PROPERTY = 'C19'
 THEOREM_FILES = ['Props/C19.v']
 ALLOWED_AXIOMS = []
 LABEL = ('full on the model (aggregate for all lists; Watch for all set/step interleavings and any number '
-         'of watchers; ServiceCheck for all call/cancel/result/time schedules of one check); the asyncio '
-         'primitives, the timer firing exactly at its deadline and a cancellable check function are '
-         'modelled assumptions tied by the correspondence runs')
+         'of watchers; ServiceCheck for all call/cancel/result/time schedules of one check), except two '
+         'full-strength statements refuted with witnesses and kept as findings D25 / D26 (strict once-per-TTL '
+         'after an aborted run; cancellation coinciding with the timeout) with the strongest true partial '
+         'theorems; the asyncio primitives, the timer firing exactly at its deadline and a cancellable check '
+         'function are modelled assumptions tied by the correspondence runs')
 TRUSTED = ['tools/facts_C19.py (fail-closed ast translator for grpclib/health: _status chain, Check/Watch '
            'branches, _reset_waits shape, __check__ latch/TTL/wrapper structure, defaults; health.proto enum)',
            'modelled, not verified: asyncio.Event (set wakes the waiters that exist, a woken waiter returns '
@@ -601,6 +603,8 @@ def run_cases(ctx, res, cases):
         m = answers.get(i)
         try:
             run_one(res, c, m)
+        except I.Livelock as e:
+            fail(res, c, 'the event loop never becomes idle again (busy loop / flood): %s' % e, {'kind': 'livelock'})
         except Exception as e:      # the rig itself broke: report, do not hide
             import traceback
             res.disagreements.append({'case': c, 'model': m, 'impl': 'rig raised: ' + traceback.format_exc()[-600:]})
@@ -707,12 +711,17 @@ def run_one(res, c, m):
             res.count('sc:run:' + ('timeout' if how == 'cancelled' and e == s + c['tmo'] else str(how)))
         for o in impl['callers']:
             res.count('sc:caller:' + o.split(':')[0])
+        if c['tmo'] <= 0:
+            res.count('sc:check_timeout<=0')
+        if any(impl['callers'][i].startswith('ret') for i in impl['cancelled_pending']):
+            res.count('sc:cancel-swallowed-by-timeout')
         if m is not None:
             res.traces += 1
             mm = dict(kv.split('=', 1) for kv in m[0].split())
             mlog = []
             for item in [x for x in mm['log'].split(',') if x]:
                 s, e, h = item.split(':')
+                res.count('sc:model-branch:' + h)
                 mlog.append((int(s), int(e), 'raise' if h == 'retR' else 'ret' if h.startswith('ret') else 'cancelled'))
             if mm['inflight'] != '-':
                 mlog.append((int(mm['inflight']), None, None))
